@@ -184,7 +184,12 @@ def gen_file(rng, w, depth, outer_syms, earlier_syms):
     stmts.append(dict(enable, alias='dr', _expect='SyntaxError'))
     return stmts
   if r < 0.06:
-    stmts.append(dict(enable, module=['__gin__', 'dynamic_registrations'], _expect='SyntaxError'))
+    bad = rng.choice([['__gin__', 'dynamic_registrations'], ['__gin__', 'experimental', 'dynamic_registration'],
+                      ['__gin__', 'dynamic_registration', 'extra'], ['__gin__', 'x', 'y', 'dynamic_registration'],
+                      ['__gin__', 'dynamic_registration', 'dynamic_registration']])
+    stmts.append(dict(enable, module=bad, _expect='SyntaxError'))
+    if rng.random() < 0.3:   # not a from-import: an ordinary import of a module that does not exist
+      stmts[-1].update({'from': False, '_expect': 'ImportError'})
     return stmts
   if r < 0.09:
     late = True
